@@ -162,13 +162,13 @@ def chunk_signal(s, cuts):
     return chunks
 
 
-def run_online(f, sig, cuts, pastify=False, text=None, reset_after=None, semantics=None, io=None):
+def run_online(f, sig, cuts, pastify=False, text=None, reset_after=None, semantics=None, io=None, consts=()):
     """Feed the signals in len(cuts)+1 updates; returns the list of returned sample lists."""
     vs = sorted(sig)
     text = text or spec_text(f)
 
     def go():
-        spec = impl.make_spec("onc", text, vs, semantics=semantics, io=io)
+        spec = impl.make_spec("onc", text, vs, semantics=semantics, io=io, consts=list(consts))
         spec.parse()
         if pastify:
             spec.pastify()
@@ -176,7 +176,7 @@ def run_online(f, sig, cuts, pastify=False, text=None, reset_after=None, semanti
             # per-variable chunking; an entry "@v" places the chunks of v at the given (increasing) update indices,
             # the other updates deliver an empty batch for v
             nup = max([len(c) for k, c in cuts.items() if not k.startswith("@")] +
-                      [max(c) for k, c in cuts.items() if k.startswith("@") and c]) + 1
+                      [max(c) for k, c in cuts.items() if k.startswith("@") and not k.startswith("@@") and c]) + 1
             chunks = {}
             for v in vs:
                 ch = chunk_signal(sig[v], cuts[v])
@@ -192,8 +192,12 @@ def run_online(f, sig, cuts, pastify=False, text=None, reset_after=None, semanti
             nup = len(cuts) + 1
             chunks = {v: chunk_signal(sig[v], cuts) for v in vs}
         outs = []
+        omit = isinstance(cuts, dict) and bool(cuts.get("@@omit"))
         for i in range(nup):
             args = [[v, py_sig(chunks[v][i])] for v in vs]
+            if omit and i > 0 and any(a[1] for a in args):
+                # a variable without new samples is left out of the call (instead of being passed with an empty list)
+                args = [a for a in args if a[1]]
             outs.append(spec.update(*args))
             if reset_after is not None and i == reset_after:
                 spec.reset()
@@ -265,7 +269,9 @@ def compare_offline_batch(ctx, cases):
             # the same durations with explicit units on either / both bounds (the time stamps are seconds, default unit s)
             import random
             from .props import c08
-            text, out = eval_offline(f, sig, text=c08.render(random.Random(c["units_seed"]), f, "s", int(SCALE * 10 ** 9), []), unit="s")
+            consts = []
+            text, out = eval_offline(f, sig, text=c08.render(random.Random(c["units_seed"]), f, "s", int(SCALE * 10 ** 9), [], False, consts),
+                                     unit="s", extra={"consts": consts})
         else:
             text, out = eval_offline(f, sig)
         rep = {"units_seed": c.get("units_seed"), "monitor": "offc", "spec": text, "formula": F.to_proto(f), "signals": {v: [[str(t), x] for t, x in sig[v]] for v in sig},
@@ -594,7 +600,8 @@ def reset_stream(ctx):
         post = gen_signals(rng, vs)
         ctx.evaluations += 1
         ctx.count("stream:reset-c")
-        v = check_reset(ctx, f, pre, post, rng.random() < 0.15)
+        useed = rng.randint(0, 10 ** 6) if rng.random() < 0.3 and any(x[0] in ("tb1", "tb2") for x in F.subformulas(f)) else None
+        v = check_reset(ctx, f, pre, post, rng.random() < 0.15, useed)
         if v is None:
             ctx.traces_validated += 1
         else:
@@ -603,9 +610,14 @@ def reset_stream(ctx):
                 return
 
 
-def check_reset(ctx, f, pre, post, no_history):
+def check_reset(ctx, f, pre, post, no_history, units_seed=None):
     vs = sorted(post)
     text = spec_text(f)
+    if units_seed is not None:
+        # the same durations with explicit units (default unit s): what reset() rebuilds must not depend on the spelling
+        import random
+        from .props import c08
+        text = c08.render(random.Random(units_seed), f, "s", int(SCALE * 10 ** 9), [])
 
     def go():
         a = impl.make_spec("onc", text, vs)
@@ -620,7 +632,7 @@ def check_reset(ctx, f, pre, post, no_history):
         return ra, rb
     out = impl.guarded(go)
     rep = {"monitor": "onc", "spec": text, "formula": F.to_proto(f), "pre": sig_rep(pre), "post": sig_rep(post),
-           "no_history": no_history, "impl": out}
+           "no_history": no_history, "units_seed": units_seed, "impl": out}
     if out[0] != "ok":
         # a fresh monitor that raises on the post inputs alone is not a reset problem
         def fresh():
@@ -640,7 +652,7 @@ def check_reset(ctx, f, pre, post, no_history):
 
 def replay_reset(ctx, obj):
     v = check_reset(Ctx(ctx.id, ctx.tier, ctx.seed), F.from_proto(obj["formula"]), sig_of_rep(obj["pre"]), sig_of_rep(obj["post"]),
-                    obj["no_history"])
+                    obj["no_history"], obj.get("units_seed"))
     return (v is None), (v.what if v else "reset monitor behaves like a fresh one")
 
 
@@ -855,9 +867,9 @@ def check_units(ctx, mon, f, sig, seed):
     a = samples_of(base[1])
     for _ in range(3):
         # same default unit (s: the time stamps are seconds), each bound spelled in a random unit on either/both ends
-        rec = []
-        text = c08.render(rng, f, "s", int(SCALE * 10 ** 9), rec)
-        t2, out = eval_offline(f, sig, text=text, unit="s") if mon == "offc" else online_flat(f, sig, text=text)
+        rec, consts = [], []
+        text = c08.render(rng, f, "s", int(SCALE * 10 ** 9), rec, False, consts)
+        t2, out = eval_offline(f, sig, text=text, unit="s", extra={"consts": consts}) if mon == "offc" else online_flat(f, sig, text=text, consts=consts)
         rep2 = dict(rep, spec=text, impl=out)
         if out[0] != "ok":
             return Violation("dense %s: rendering with the same durations raised %r: %s" % (mon, out[1:], text), rep2, stream="units-c")
